@@ -454,6 +454,12 @@ func cloneSegs(s []seg) []seg { return append([]seg(nil), s...) }
 func TestC02(t *testing.T) {
 	r := NewRecorder(t, "C02")
 	defer r.Close(t)
+	// a second session on the same NoiseGrpcConn object - over a fresh and over the same transport
+	// object - must not be handed plaintext left over from the first
+	for _, same := range []bool{false, true} {
+		grpcReuseCase(r, "C02", false, same, 1000, 100)
+		grpcReuseCase(r, "C02", false, same, 10, 1)
+	}
 	rng := newRand(2)
 	// honest streams
 	for _, kk := range []bool{false, true} {
@@ -554,8 +560,8 @@ func TestC02(t *testing.T) {
 	for j := range rot {
 		rot[j] = 2 + j%4
 	}
-	for _, at := range []int{499, 500, 501} {
-		for _, what := range []string{"replay-own-0", "reflect-other-0", "replay-own-last", "reflect-other-1"} {
+	for _, at := range []int{499, 500, 501, 502} {
+		for _, what := range []string{"replay-own-0", "reflect-other-0", "replay-own-last", "reflect-other-1", "reflect-other-same"} {
 			at, what := at, what
 			c02Case(r, at%2 == 0, rot, func(s *c02Session, h []seg) []seg {
 				var ins []seg
@@ -568,6 +574,10 @@ func TestC02(t *testing.T) {
 					ins = []seg{{own: false, use: 0, from: 0, to: len(s.units[1][0])}, {own: false, use: 1, from: 0, to: len(s.units[1][1])}}
 				case "reflect-other-1":
 					ins = []seg{{own: false, use: 2, from: 0, to: len(s.units[1][2])}, {own: false, use: 3, from: 0, to: len(s.units[1][3])}}
+				case "reflect-other-same":
+					// the reader's own record with the same index: sealed under the same key epoch and
+					// nonce of the *other* direction, also after both directions have rotated
+					ins = []seg{{own: false, use: 2 * at, from: 0, to: len(s.units[1][2*at])}, {own: false, use: 2*at + 1, from: 0, to: len(s.units[1][2*at+1])}}
 				}
 				w := cloneSegs(h[:2*at])
 				w = append(w, ins...)
